@@ -4,6 +4,8 @@ C09.a  chain::chainmonitor::ChainMonitor::channel_monitor_updated: the Completed
        of the channel is pending any more, whatever the order of completions (<= 3 pending updates).
 C09.b  ChainMonitor::update_channel_internal: an update whose persistence is in progress is remembered as pending; the
        update is applied to the monitor before it is persisted; what the caller is told.
+C09.c  ChannelManager::channel_monitor_updated (whole function, callees stubbed): a channel is resumed (or a closed
+       channel's blocked actions run) only when no in-flight update above the completed id is left.
 C09.d  FundedChannel::monitor_updating_restored (region: from the peer-connected test to the end): only messages that
        were being held are released, the hold flags are cleared, the order is the recorded one.
 """
@@ -36,6 +38,7 @@ def run(S):
     D = S.decls()
     chain_monitor_completion(S, D)
     chain_monitor_update(S, D)
+    manager_completion(S, D)
     channel_restore(S, D)
 
 
@@ -257,3 +260,63 @@ def channel_restore(S, D):
           'the hold flags are cleared, so nothing is released a second time by a later completion')
     S.witness(ids[2], E, [X.zbool(ret), z3.Not(disconnected), pend_raa, pend_cs, raa_avail, cs_avail, z3.Not(sig_cs), z3.Not(sig_raa)], z3.And(raa_some, cu_some))
     S.validate('C09.validate', E, battery_binding(z3.BoolVal(True)), n=1, extra_vectors=[(1,)])
+
+
+def manager_completion(S, D):
+    """C09.c: ChannelManager::channel_monitor_updated (whole function, callees stubbed): what a Completed event from the
+    chain monitor makes the manager do, with N in-flight updates of the channel."""
+    for N in ((0, 1, 2) if S.tier == 'quick' else (0, 1, 2, 3)):
+        tag = 'C09.c.n%d' % N
+        ids = [tag + '.resume_only_when_none_in_flight', tag + '.nopanic', tag + '.witness']
+        if all(S._skip(o) for o in ids):
+            continue
+        f = S.fn('channel_monitor_updated', first_param='ChannelManager')
+        E = S.engine(unwind=N + 1)
+        mem = {}
+        CU = D.struct_fields('ChannelMonitorUpdate')
+        uid = [E.sym('in_flight%d.update_id' % i, 'u64') for i in range(N)]
+        ups = X.Seq([X.Adt('ChannelMonitorUpdate', {CU.index('update_id'): uid[i]}, base='upd%d' % i) for i in range(N)], N, 'ChannelMonitorUpdate')
+        tup_c = E.new_cell()
+        mem[tup_c] = X.Tup([X.Opaque('funding outpoint'), ups])
+        peer_known, tracked, chan_open, awaiting = z3.Bool('peer.known'), z3.Bool('channel.has_in_flight_entry'), z3.Bool('channel.open_and_funded'), z3.Bool('channel.awaiting_monitor_update')
+        has_high = z3.Bool('completed_id.given')
+        high = E.sym('completed_id', 'u64')
+        PS = D.struct_fields('PeerState')
+        peer_c = E.new_cell()
+        mem[peer_c] = X.Adt('PeerState', {}, base='peer_state')
+        resumed, actions = [], []
+        for rx, h in [
+            (r'RwLock::<\(\)>::try_write$', lambda *a: X.En('Result', 1, {1: [X.Opaque('would block')]})),
+            (r'FairRwLock::<.*>::read$', lambda *a: X.En('Result', 0, {0: [X.Opaque('peers')]})),
+            (r'RwLockReadGuard<.*> as (?:std::ops::)?Deref>::deref$', lambda *a: X.Opaque('peers map')),
+            (r'HashMap::<.*PublicKey, .*Mutex<PeerState<.*>>.*>::get::<', lambda *a: X.En('Option', z3.If(peer_known, 1, 0), {1: [X.Opaque('peer mutex')]})),
+            (r'Mutex::<PeerState<.*>>::lock$', lambda *a: X.En('Result', 0, {0: [X.Ref(peer_c)]})),
+            (r'MutexGuard<.*PeerState<.*>> as (?:std::ops::)?DerefMut>::deref_mut$', lambda *a: X.Ref(peer_c)),
+            (r'BTreeMap::<.*ChannelId, \(.*OutPoint, .*Vec<ChannelMonitorUpdate>\)>::get_mut::<', lambda *a: X.En('Option', z3.If(tracked, 1, 0), {1: [X.Ref(tup_c)]})),
+            (r'HashMap::<.*ChannelId, Channel<.*>.*>::get_mut::<', lambda *a: X.En('Option', z3.If(chan_open, 1, 0), {1: [X.Opaque('channel')]})),
+            (r'Option::<&mut Channel<.*>>::and_then::<', lambda E_, m, func, argv, *a: argv[0]),
+            (r'FundedChannel::<.*>::is_awaiting_monitor_update$', lambda *a: X.B(awaiting)),
+            (r'ChannelManager::<.*>::try_resume_channel_post_monitor_update$', lambda E_, m, func, argv, guard, *a: (resumed.append(X.zbool(guard)), X.Opaque('completion data'))[1]),
+            (r'ChannelManager::<.*>::check_free_peer_holding_cells$', lambda *a: X.Opaque('holding cell result')),
+            (r'ChannelManager::<.*>::handle_post_monitor_update_chan_resume$', lambda *a: X.B(z3.Bool('resume.needs_persist'))),
+            (r'ChannelManager::<.*>::handle_holding_cell_free_result$', lambda *a: X.UNIT),
+            (r'BTreeMap::<.*ChannelId, .*Vec<MonitorUpdateCompletionAction>>::remove::<', lambda E_, m, func, argv, guard, *a: (actions.append(X.zbool(guard)), X.En('Option', E.sym('blocked_actions!%d' % next(E.nfresh), 'u8').t % 2, {1: [X.Seq([], E.sym('n_actions!%d' % next(E.nfresh), 'usize').t, 'action')]}))[1]),
+            (r'ChannelManager::<.*>::handle_monitor_update_completion_actions::<', lambda *a: X.UNIT),
+            (r'WithContext::<.*>::from$', lambda *a: X.Opaque('logger')),
+            (r'^std::mem::drop::<', lambda *a: X.UNIT),
+        ]:
+            E.models.insert(0, (re.compile(rx), h))
+        args = [E.sym('self', f.params[0][1], mem), X.Opaque('channel id'), X.En('Option', z3.If(has_high, 1, 0), {1: [high]}), X.Opaque('counterparty')]
+        rv = S.call(E, f, args, mem)
+        did_resume = z3.Or(*resumed) if resumed else z3.BoolVal(False)
+        ran_actions = z3.Or(*actions) if actions else z3.BoolVal(False)
+        left = [z3.Or(z3.Not(has_high), uid[i].t > high.t) for i in range(N)]
+        any_left = z3.And(tracked, z3.Or(*left)) if N else z3.BoolVal(False)
+        prove(S, ids[0], E, [], z3.And(z3.Implies(z3.Or(did_resume, ran_actions), z3.And(peer_known, z3.Not(any_left))),
+                                       did_resume == z3.And(peer_known, z3.Not(any_left), chan_open, awaiting),
+                                       ran_actions == z3.And(peer_known, z3.Not(any_left), z3.Not(chan_open)),
+                                       z3.Implies(z3.Or(z3.Not(peer_known), any_left), z3.Not(X.zbool(rv.t)))),
+              'a completion reported by the chain monitor resumes the channel (or runs the blocked post-update actions of a closed one) only when NO in-flight update above the completed id is left for that channel; while one is left nothing is released and nothing is changed',
+              bounds='%d in-flight updates with arbitrary ids; maps, locks, the channel and the resume machinery stubbed' % N)
+        S.no_panic(ids[1], E, [], 'total', only=lambda p: 'overflow' not in p[1])
+        S.witness(ids[2], E, [peer_known, z3.Not(any_left), chan_open, awaiting], did_resume)
